@@ -167,10 +167,9 @@ func checkKClique(t *vlib.T, b *built) {
 	t.Detail(map[string]any{"graph": sp.String(), "ids": b.ids})
 }
 
-func genKClique(g *vlib.G) {
-	for _, s := range []graphSpace{{n: 0}, {n: 1}, {n: 2}, {n: 3}, {n: 4}, {n: 5}, {n: 4, weighted: true, stride: 5}} {
-		forGraphs(s, s.stride <= 1, func(key string, mk func() *built) {
-			g.Case(key, func(t *vlib.T) { checkKClique(t, mk()) })
-		})
-	}
+func genKClique(g *vlib.G, large bool) {
+	eachSpace(g, large, []graphSpace{{n: 0}, {n: 1}, {n: 2}, {n: 3}, {n: 4}, {n: 4, weighted: true, stride: 5},
+		{n: 5, large: true}}, func(s graphSpace, key string, mk func() *built) {
+		g.Case(key, func(t *vlib.T) { checkKClique(t, mk()) })
+	})
 }
